@@ -30,6 +30,38 @@ func dump(v any) string {
 	return sb.String()
 }
 
+// dumpFull renders a value with every slice extended to its CAPACITY (v[:cap(v)], recursively): the cells a
+// later in-place growth would expose are part of what the model has to agree on
+func dumpFull(v any) string {
+	if !withinFull(v, 0, dumpDepth) {
+		return "cyc"
+	}
+	var sb strings.Builder
+	dumpToF(&sb, v, true)
+	return sb.String()
+}
+
+func withinFull(v any, d, max int) bool {
+	if d > max {
+		return false
+	}
+	switch v := v.(type) {
+	case []any:
+		for _, x := range v[:cap(v)] {
+			if !withinFull(x, d+1, max) {
+				return false
+			}
+		}
+	case map[string]any:
+		for _, x := range v {
+			if !withinFull(x, d+1, max) {
+				return false
+			}
+		}
+	}
+	return true
+}
+
 func within(v any, d, max int) bool {
 	if d > max {
 		return false
@@ -51,7 +83,9 @@ func within(v any, d, max int) bool {
 	return true
 }
 
-func dumpTo(sb *strings.Builder, v any) {
+func dumpTo(sb *strings.Builder, v any) { dumpToF(sb, v, false) }
+
+func dumpToF(sb *strings.Builder, v any, full bool) {
 	switch v := v.(type) {
 	case nil:
 		sb.WriteString("null")
@@ -67,9 +101,12 @@ func dumpTo(sb *strings.Builder, v any) {
 		sb.WriteString("(s " + Hexs([]byte(v)) + ")")
 	case []any:
 		sb.WriteString("(a")
+		if full {
+			v = v[:cap(v)]
+		}
 		for _, x := range v {
 			sb.WriteByte(' ')
-			dumpTo(sb, x)
+			dumpToF(sb, x, full)
 		}
 		sb.WriteByte(')')
 	case map[string]any:
@@ -81,7 +118,7 @@ func dumpTo(sb *strings.Builder, v any) {
 		sb.WriteString("(o")
 		for _, k := range keys {
 			sb.WriteString(" (" + Hexs([]byte(k)) + " ")
-			dumpTo(sb, v[k])
+			dumpToF(sb, v[k], full)
 			sb.WriteByte(')')
 		}
 		sb.WriteByte(')')
